@@ -1,10 +1,633 @@
-//! C26 — not built yet.
+//! C26 The object archive behaves like a map and stays consistent.
+//!
+//! Model-based: every operation result of `utils::archive::Archive` is compared with a map
+//! name -> (meta, data); after every operation `verify()` must succeed, `objects()` must list exactly
+//! the model, and the harness' own reader of the file (bx::read_layout) must show that objects and free
+//! blocks tile [end of index, end of file) without gap or overlap — through the index chains and through
+//! a linear scan — and hold exactly the model's names, metadata and content.
 
+use std::borrow::Cow;
+use std::cell::{Cell, RefCell};
+use std::collections::BTreeMap;
+use std::path::{Path, PathBuf};
+use std::sync::atomic::{AtomicU64, Ordering};
+use std::sync::OnceLock;
+
+use proptest::prelude::*;
+use routinator::utils::archive::{AccessError, Archive, ArchiveError, FetchError, ObjectMeta, PublishError, StorageRead, StorageWrite};
+use serde::{Deserialize, Serialize};
+
+use crate::bx::*;
 use crate::core::*;
 
-pub const IMPLEMENTED: bool = false;
+//------------ metadata type of the test archive --------------------------------------------------
 
-pub fn run(_ctx: &Ctx, _rep: &mut Report, _replay: Option<&serde_json::Value>) {
-    eprintln!("C26: check not implemented");
-    std::process::exit(2);
+#[derive(Clone, Debug, PartialEq, Eq)]
+pub struct TMeta<const N: usize>(pub [u8; N]);
+
+impl<const N: usize> ObjectMeta for TMeta<N> {
+    const SIZE: usize = N;
+    type ConsistencyError = u8;
+    fn write(&self, write: &mut StorageWrite) -> Result<(), ArchiveError> {
+        write.write(&self.0)
+    }
+    fn read(read: &mut StorageRead) -> Result<Self, ArchiveError> {
+        Ok(TMeta(read.read_array::<N>()?))
+    }
+}
+
+fn meta_of<const N: usize>(tag: u32) -> TMeta<N> {
+    let t = tag.to_le_bytes();
+    let mut m = [0u8; N];
+    for (i, b) in m.iter_mut().enumerate() {
+        *b = t[i % 4] ^ ((i / 4) as u8);
+    }
+    TMeta(m)
+}
+
+//------------ case ------------------------------------------------------------------------------
+
+#[derive(Clone, Debug, Serialize, Deserialize, PartialEq, Eq)]
+pub enum NameSpec {
+    Pool(u8),
+    Raw(Hex),
+}
+
+fn pool() -> &'static Vec<Vec<u8>> {
+    static P: OnceLock<Vec<Vec<u8>>> = OnceLock::new();
+    P.get_or_init(|| {
+        vec![
+            b"".to_vec(),
+            b"a".to_vec(),
+            b"b".to_vec(),
+            b"state".to_vec(),
+            b"rsync://h.example/m/a.cer".to_vec(),
+            b"rsync://h.example/m/b.cer".to_vec(),
+            vec![b'n'; 190],
+            vec![b'L'; 300],
+        ]
+    })
+}
+
+impl NameSpec {
+    fn bytes(&self) -> Vec<u8> {
+        match self {
+            NameSpec::Pool(i) => pool()[*i as usize % pool().len()].clone(),
+            NameSpec::Raw(h) => h.0.clone(),
+        }
+    }
+}
+
+#[derive(Clone, Debug, Serialize, Deserialize, PartialEq, Eq)]
+pub enum SizeSpec {
+    Abs(u32),
+    /// total object size = k pages + delta bytes (before rounding), i.e. data length = k*256 - header - name - meta + delta
+    Page(u8, i8),
+}
+
+#[derive(Clone, Debug, Serialize, Deserialize, PartialEq, Eq)]
+pub struct DataSpec {
+    pub size: SizeSpec,
+    pub seed: u8,
+}
+
+impl DataSpec {
+    fn bytes(&self, name_len: usize, meta: usize) -> Vec<u8> {
+        let len = match self.size {
+            SizeSpec::Abs(n) => n as i64,
+            SizeSpec::Page(k, d) => (k.max(1) as i64) * 256 - 33 - name_len as i64 - meta as i64 + d as i64,
+        }
+        .max(0) as usize;
+        (0..len).map(|i| self.seed.wrapping_add((i as u8).wrapping_mul(13)).wrapping_add((i >> 8) as u8)).collect()
+    }
+}
+
+#[derive(Clone, Debug, Serialize, Deserialize, PartialEq, Eq)]
+pub enum Check {
+    Accept,
+    Refuse,
+    /// accept iff the stored metadata is the one made from this tag
+    Match(u32),
+}
+
+#[derive(Clone, Debug, Serialize, Deserialize, PartialEq, Eq)]
+pub enum Op {
+    Publish { name: NameSpec, data: DataSpec, meta: u32 },
+    Update { name: NameSpec, data: DataSpec, meta: u32, check: Check },
+    Delete { name: NameSpec, check: Check },
+    Fetch { name: NameSpec },
+    FetchIf { name: NameSpec, check: Check },
+    /// close and open the file again (writable)
+    Reopen,
+    /// open a second, read-only handle and compare everything through it
+    Probe,
+}
+
+#[derive(Clone, Debug, Serialize, Deserialize, PartialEq, Eq)]
+pub struct ArchCase {
+    /// 0 = file made by `Archive::create` (1024 buckets); otherwise an empty archive with this many buckets
+    pub buckets: u16,
+    pub key: u64,
+    /// 32-byte metadata (as the RRDP archive) instead of 5 bytes
+    pub meta32: bool,
+    pub ops: Vec<Op>,
+}
+
+type Model = BTreeMap<Vec<u8>, (Vec<u8>, Vec<u8>)>;
+
+fn key16(k: u64) -> [u8; 16] {
+    let mut key = [0u8; 16];
+    key[..8].copy_from_slice(&k.to_le_bytes());
+    key[8..].copy_from_slice(&k.wrapping_mul(0x9E37_79B9_7F4A_7C15).to_le_bytes());
+    key
+}
+
+static FILE_NO: AtomicU64 = AtomicU64::new(0);
+
+fn f(what: String, msg: String) -> Verdict {
+    Verdict::fail(format!("C26/{}", what), msg)
+}
+
+fn aerr(e: &ArchiveError) -> String {
+    match e {
+        ArchiveError::Corrupt(s) => format!("corrupt({})", s.replace(' ', "-")),
+        ArchiveError::Io(e) => format!("io({:?})", e.kind()),
+    }
+}
+
+/// Everything observable must equal the model. `step` names the operation for messages.
+fn check_all<const N: usize>(archive: &Archive<TMeta<N>>, path: &Path, model: &Model, step: &str) -> Result<Layout, Verdict> {
+    let stats = archive.verify().map_err(|e| f(format!("verify/{}", aerr(&e)), format!("after {}: verify() = {:?}", step, e)))?;
+    let mut listed: Model = BTreeMap::new();
+    let iter = archive.objects().map_err(|e| f(format!("objects/{}", aerr(&e)), format!("after {}: objects() = {:?}", step, e)))?;
+    for item in iter {
+        let (name, meta, data) = item.map_err(|e| f(format!("objects/{}", aerr(&e)), format!("after {}: objects() item = {:?}", step, e)))?;
+        if listed.insert(name.to_vec(), (meta.0.to_vec(), data.to_vec())).is_some() {
+            return Err(f("objects/duplicate".into(), format!("after {}: objects() lists {} twice", step, to_hex(&name))));
+        }
+    }
+    if listed != *model {
+        return Err(f("objects/differs-from-model".into(), format!("after {}: objects() lists {} entries {:?}, model has {} {:?}", step, listed.len(), names(&listed), model.len(), names(model))));
+    }
+    let file = std::fs::read(path).map_err(|e| Verdict::Dropped(format!("cannot read archive file: {}", e)))?;
+    let layout = read_layout(&file, N as u64).map_err(|(code, msg)| f(format!("layout/{}", code), format!("after {}: {}", step, msg)))?;
+    if layout.object_map() != *model {
+        return Err(f("layout/content-differs-from-model".into(), format!("after {}: file holds {:?}, model {:?}", step, names(&layout.object_map()), names(model))));
+    }
+    let free_n = layout.free().count() as u64;
+    let free_sz: u64 = layout.free().map(|b| b.size).sum();
+    let obj_sz: u64 = layout.objects().map(|b| b.size).sum();
+    if stats.object_count != model.len() as u64 || stats.empty_count != free_n || stats.empty_size != free_sz || stats.object_size != obj_sz {
+        return Err(f("verify/stats-differ-from-file".into(), format!("after {}: verify() reports {:?}; file has {} objects ({} bytes), {} free blocks ({} bytes)", step, stats, model.len(), obj_sz, free_n, free_sz)));
+    }
+    Ok(layout)
+}
+
+fn names(m: &Model) -> Vec<String> {
+    m.iter().map(|(k, (meta, d))| format!("{}:{}:{}b", truncate(&String::from_utf8_lossy(k), 24), to_hex(&meta[..meta.len().min(4)]), d.len())).collect()
+}
+
+fn open_archive<const N: usize>(path: &Path, writable: bool) -> Result<Archive<TMeta<N>>, Verdict> {
+    Archive::open(path, writable).map_err(|e| f("open/error".into(), format!("Archive::open(writable={}) = {:?}", writable, e)))
+}
+
+pub fn judge_in<const N: usize>(dir: &Path, case: &ArchCase, info: &mut CaseInfo) -> Verdict {
+    let path: PathBuf = dir.join(format!("arch-{}.bin", FILE_NO.fetch_add(1, Ordering::SeqCst)));
+    let v = judge_file::<N>(&path, case, info);
+    let _ = std::fs::remove_file(&path);
+    v
+}
+
+fn judge_file<const N: usize>(path: &Path, case: &ArchCase, info: &mut CaseInfo) -> Verdict {
+    let key = key16(case.key);
+    if case.buckets == 0 {
+        // the real constructor; its output must be the documented empty archive, then the random key
+        // is replaced by the case's key so that chain order is reproducible
+        let a = match Archive::<TMeta<N>>::create(path) {
+            Ok(a) => a,
+            Err(e) => return Verdict::Dropped(format!("create failed: {:?}", e)),
+        };
+        drop(a);
+        let mut file = std::fs::read(path).unwrap();
+        let mut k = [0u8; 16];
+        k.copy_from_slice(&file[6..22]);
+        if file != empty_archive(k, 1024) {
+            return f("create/not-an-empty-archive".into(), format!("Archive::create wrote {} bytes that are not magic+key+1024+zeroed index", file.len()));
+        }
+        file[6..22].copy_from_slice(&key);
+        std::fs::write(path, &file).unwrap();
+        info.class("made_by=Archive::create");
+    } else {
+        std::fs::write(path, empty_archive(key, case.buckets as u64)).unwrap();
+        info.class(format!("buckets={}", case.buckets));
+    }
+    let mut archive = match open_archive::<N>(path, true) {
+        Ok(a) => a,
+        Err(v) => return v,
+    };
+    let mut model: Model = BTreeMap::new();
+    let mut layout = match check_all(&archive, path, &model, "open") {
+        Ok(l) => l,
+        Err(v) => return v,
+    };
+    let mut freed_before = false;
+    for (i, op) in case.ops.iter().enumerate() {
+        let step = format!("op {} {:?}", i, short(op));
+        let prev = layout.clone();
+        let mut written: Option<Vec<u8>> = None;
+        match op {
+            Op::Publish { name, data, meta } => {
+                let n = name.bytes();
+                let d = data.bytes(n.len(), N);
+                let m = meta_of::<N>(*meta);
+                let res = archive.publish(&n, &m, &d);
+                let exists = model.contains_key(&n);
+                match (&res, exists) {
+                    (Ok(()), false) => {
+                        model.insert(n.clone(), (m.0.to_vec(), d));
+                        written = Some(n);
+                    }
+                    (Err(PublishError::AlreadyExists), true) => info.class("result=already-exists"),
+                    _ => return f(format!("publish/expected={}/got={}", if exists { "already-exists" } else { "ok" }, pub_class(&res)), format!("{}: {:?}", step, res)),
+                }
+            }
+            Op::Update { name, data, meta, check } => {
+                let n = name.bytes();
+                let d = data.bytes(n.len(), N);
+                let m = meta_of::<N>(*meta);
+                let seen: RefCell<Option<Vec<u8>>> = RefCell::new(None);
+                let res = archive.update(&n, &m, &d, |stored| {
+                    *seen.borrow_mut() = Some(stored.0.to_vec());
+                    decide::<N>(check, stored)
+                });
+                let expect = expectation::<N>(&model, &n, check);
+                if let Some(v) = judge_access("update", &step, &expect, access_class(&res), &seen.borrow(), &model, &n) {
+                    return v;
+                }
+                if expect == "ok" {
+                    let old_len = model[&n].1.len();
+                    if page_size(n.len(), N, old_len) == page_size(n.len(), N, d.len()) {
+                        info.class("update=in_place");
+                    } else {
+                        info.class("update=relocate");
+                    }
+                    model.insert(n.clone(), (m.0.to_vec(), d));
+                    written = Some(n);
+                } else {
+                    info.class(format!("result={}", expect));
+                }
+            }
+            Op::Delete { name, check } => {
+                let n = name.bytes();
+                let seen: RefCell<Option<Vec<u8>>> = RefCell::new(None);
+                let res = archive.delete(&n, |stored| {
+                    *seen.borrow_mut() = Some(stored.0.to_vec());
+                    decide::<N>(check, stored)
+                });
+                let expect = expectation::<N>(&model, &n, check);
+                if let Some(v) = judge_access("delete", &step, &expect, access_class(&res), &seen.borrow(), &model, &n) {
+                    return v;
+                }
+                if expect == "ok" {
+                    model.remove(&n);
+                } else {
+                    info.class(format!("result={}", expect));
+                }
+            }
+            Op::Fetch { name } => {
+                let n = name.bytes();
+                let res = archive.fetch(&n);
+                let res2 = archive.fetch_bytes(&n);
+                match (model.get(&n), &res, &res2) {
+                    (Some((_, d)), Ok(got), Ok(got2)) if got.as_ref() == d.as_slice() && got2.as_ref() == d.as_slice() => {}
+                    (None, Err(FetchError::NotFound), Err(FetchError::NotFound)) => info.class("result=not-found"),
+                    (m, _, _) => {
+                        return f(
+                            format!("fetch/expected={}/got={}", if m.is_some() { "data" } else { "not-found" }, fetch_class(&res, m.map(|x| x.1.as_slice()))),
+                            format!("{}: fetch = {:?}, fetch_bytes = {:?}", step, res.as_ref().map(|d| d.len()), res2.as_ref().map(|d| d.len())),
+                        )
+                    }
+                }
+            }
+            Op::FetchIf { name, check } => {
+                let n = name.bytes();
+                let seen: RefCell<Option<Vec<u8>>> = RefCell::new(None);
+                let res = archive.fetch_if(&n, |stored| {
+                    *seen.borrow_mut() = Some(stored.0.to_vec());
+                    decide::<N>(check, stored)
+                });
+                let expect = expectation::<N>(&model, &n, check);
+                let class = match &res {
+                    Ok(d) if model.get(&n).map(|m| m.1.as_slice() == d.as_ref()).unwrap_or(false) => "ok",
+                    Ok(_) => "wrong-data",
+                    Err(AccessError::NotFound) => "not-found",
+                    Err(AccessError::Inconsistent(_)) => "refused",
+                    Err(AccessError::Archive(_)) => "archive-error",
+                };
+                if let Some(v) = judge_access("fetch_if", &step, &expect, class.to_string(), &seen.borrow(), &model, &n) {
+                    return v;
+                }
+                if expect != "ok" {
+                    info.class(format!("result={}", expect));
+                }
+            }
+            Op::Reopen => {
+                drop(archive);
+                archive = match open_archive::<N>(path, true) {
+                    Ok(a) => a,
+                    Err(v) => return v,
+                };
+                if !model.is_empty() {
+                    info.class("reopen_nonempty");
+                    info.nt(true);
+                }
+            }
+            Op::Probe => {
+                let ro = match open_archive::<N>(path, false) {
+                    Ok(a) => a,
+                    Err(v) => return v,
+                };
+                if let Err(v) = check_all(&ro, path, &model, &format!("{} (read-only handle)", step)) {
+                    return v;
+                }
+                for (n, (_, d)) in &model {
+                    match ro.fetch(n) {
+                        Ok(got) if got.as_ref() == d.as_slice() => {}
+                        other => return f("fetch/expected=data/got=other-through-read-only-handle".into(), format!("{}: fetch({}) = {:?}", step, to_hex(n), other.map(|d| d.len()))),
+                    }
+                }
+                info.class("probe_read_only");
+            }
+        }
+        layout = match check_all(&archive, path, &model, &step) {
+            Ok(l) => l,
+            Err(v) => return v,
+        };
+        // classification of what happened to the file (for the non-trivial rule)
+        if layout.file_len < prev.file_len {
+            info.class("file_truncated");
+        }
+        if let Some(n) = written {
+            if let Some(b) = layout.objects().find(|b| b.name == n) {
+                if let Some(fb) = prev.free().find(|fb| fb.pos <= b.pos && b.pos < fb.pos + fb.size) {
+                    let cls = if fb.size == b.size { "free_reuse=exact" } else { "free_reuse=split" };
+                    info.class(cls);
+                    if freed_before {
+                        info.nt(true);
+                    }
+                } else if b.pos >= prev.file_len {
+                    info.class("appended");
+                }
+            }
+        }
+        if matches!(op, Op::Delete { .. } | Op::Update { .. }) && layout.free().count() > 0 {
+            freed_before = true;
+            if layout.free().count() == prev.free().count() && layout.file_len == prev.file_len && layout.objects().count() < prev.objects().count() {
+                info.class("free_coalesced");
+            }
+        }
+    }
+    info.class(format!("meta_size={}", N));
+    Verdict::Pass
+}
+
+fn short(op: &Op) -> String {
+    let s = format!("{:?}", op);
+    truncate(&s, 160)
+}
+
+fn page_size(name: usize, meta: usize, data: usize) -> u64 {
+    ((33 + name + meta + data) as u64).next_multiple_of(256)
+}
+
+fn decide<const N: usize>(check: &Check, stored: &TMeta<N>) -> Result<(), u8> {
+    match check {
+        Check::Accept => Ok(()),
+        Check::Refuse => Err(7),
+        Check::Match(t) => {
+            if *stored == meta_of::<N>(*t) {
+                Ok(())
+            } else {
+                Err(9)
+            }
+        }
+    }
+}
+
+fn expectation<const N: usize>(model: &Model, name: &[u8], check: &Check) -> String {
+    match model.get(name) {
+        None => "not-found".into(),
+        Some((meta, _)) => {
+            let accept = match check {
+                Check::Accept => true,
+                Check::Refuse => false,
+                Check::Match(t) => meta.as_slice() == meta_of::<N>(*t).0.as_slice(),
+            };
+            if accept { "ok".into() } else { "refused".into() }
+        }
+    }
+}
+
+fn access_class(res: &Result<(), AccessError<u8>>) -> String {
+    match res {
+        Ok(()) => "ok".into(),
+        Err(AccessError::NotFound) => "not-found".into(),
+        Err(AccessError::Inconsistent(_)) => "refused".into(),
+        Err(AccessError::Archive(_)) => "archive-error".into(),
+    }
+}
+
+fn pub_class(res: &Result<(), PublishError>) -> &'static str {
+    match res {
+        Ok(()) => "ok",
+        Err(PublishError::AlreadyExists) => "already-exists",
+        Err(PublishError::Archive(_)) => "archive-error",
+    }
+}
+
+fn fetch_class(res: &Result<Cow<[u8]>, FetchError>, want: Option<&[u8]>) -> &'static str {
+    match res {
+        Ok(d) if Some(d.as_ref()) == want => "data-but-fetch_bytes-differs",
+        Ok(_) => "wrong-data",
+        Err(FetchError::NotFound) => "not-found",
+        Err(FetchError::Archive(_)) => "archive-error",
+    }
+}
+
+fn judge_access(op: &str, step: &str, expect: &str, got: String, seen: &Option<Vec<u8>>, model: &Model, name: &[u8]) -> Option<Verdict> {
+    if expect != got {
+        return Some(f(format!("{}/expected={}/got={}", op, expect, got), format!("{}: expected {}, got {}", step, expect, got)));
+    }
+    match (model.get(name), seen) {
+        (None, Some(_)) => Some(f(format!("{}/check-called-for-missing-object", op), format!("{}: the metadata check ran although the name is not in the archive", step))),
+        (Some(_), None) => Some(f(format!("{}/check-not-called", op), format!("{}: the metadata check was not consulted", step))),
+        (Some((meta, _)), Some(s)) if meta != s => Some(f(format!("{}/check-saw-wrong-metadata", op), format!("{}: check saw {} but the object's metadata is {}", step, to_hex(s), to_hex(meta)))),
+        _ => None,
+    }
+}
+
+pub fn judge(dir: &Path, case: &ArchCase, info: &mut CaseInfo) -> Verdict {
+    match crate::core::catch(|| if case.meta32 { judge_in::<32>(dir, case, info) } else { judge_in::<5>(dir, case, info) }) {
+        Ok(v) => v,
+        Err(p) => {
+            let first = p.lines().next().unwrap_or("").to_string();
+            f(format!("panic/{}", truncate(&first.replace(' ', "-"), 60)), format!("archive operation panicked: {}", p))
+        }
+    }
+}
+
+//------------ byte-driven entry (libFuzzer body) ------------------------------------------------
+
+pub fn case_from_bytes(data: &[u8]) -> ArchCase {
+    let mut it = data.iter().copied();
+    let mut next = move || it.next();
+    let b0 = next().unwrap_or(0);
+    let buckets = [1u16, 2, 3, 7, 0, 1024][(b0 % 6) as usize];
+    let meta32 = b0 & 0x40 != 0;
+    let key = next().unwrap_or(1) as u64 + 1;
+    let mut ops = Vec::new();
+    while ops.len() < 64 {
+        let Some(code) = next() else { break };
+        let name = |b: Option<u8>, next: &mut dyn FnMut() -> Option<u8>| -> NameSpec {
+            let b = b.unwrap_or(0);
+            if b < 0xE0 {
+                NameSpec::Pool(b % 8)
+            } else {
+                let len = (b & 0x0f) as usize;
+                NameSpec::Raw(Hex((0..len).map(|_| next().unwrap_or(b'x')).collect()))
+            }
+        };
+        let data_spec = |next: &mut dyn FnMut() -> Option<u8>| -> DataSpec {
+            let a = next().unwrap_or(0);
+            let b = next().unwrap_or(0);
+            let size = if a & 1 == 0 { SizeSpec::Page(1 + (a >> 1) % 5, [(-1i8), 0, 1][(b % 3) as usize]) } else { SizeSpec::Abs(((a as u32 >> 1) << 8 | b as u32) % 3000) };
+            DataSpec { size, seed: b }
+        };
+        let check = |b: Option<u8>| match b.unwrap_or(0) % 4 {
+            0 | 1 => Check::Accept,
+            2 => Check::Refuse,
+            _ => Check::Match(b.unwrap_or(0) as u32 % 4),
+        };
+        let mut nx = &mut next as &mut dyn FnMut() -> Option<u8>;
+        let op = match code % 9 {
+            0 | 1 => {
+                let n = nx();
+                let n = name(n, &mut nx);
+                let d = data_spec(&mut nx);
+                Op::Publish { name: n, data: d, meta: nx().unwrap_or(0) as u32 % 4 }
+            }
+            2 | 3 => {
+                let n = nx();
+                let n = name(n, &mut nx);
+                let d = data_spec(&mut nx);
+                let m = nx().unwrap_or(0) as u32 % 4;
+                Op::Update { name: n, data: d, meta: m, check: check(nx()) }
+            }
+            4 | 5 => {
+                let n = nx();
+                let n = name(n, &mut nx);
+                Op::Delete { name: n, check: check(nx()) }
+            }
+            6 => {
+                let n = nx();
+                let n = name(n, &mut nx);
+                if code & 0x10 != 0 { Op::Fetch { name: n } } else { Op::FetchIf { name: n, check: check(nx()) } }
+            }
+            7 => Op::Reopen,
+            _ => Op::Probe,
+        };
+        ops.push(op);
+    }
+    ArchCase { buckets, key, meta32, ops }
+}
+
+fn fuzz_dir() -> &'static Path {
+    static D: OnceLock<tempfile::TempDir> = OnceLock::new();
+    D.get_or_init(|| {
+        let base = if Path::new("/dev/shm").is_dir() { "/dev/shm" } else { "/tmp" };
+        tempfile::Builder::new().prefix("rv-C26-fuzz-").tempdir_in(base).expect("scratch")
+    })
+    .path()
+}
+
+pub fn judge_bytes(dir: &Path, data: &[u8], info: &mut CaseInfo) -> Verdict {
+    let case = case_from_bytes(data);
+    info.class("byte_driven");
+    judge(dir, &case, info)
+}
+
+pub fn fuzz_bytes(data: &[u8]) -> Result<(), String> {
+    let mut info = CaseInfo::default();
+    match judge_bytes(fuzz_dir(), data, &mut info) {
+        Verdict::Fail { key, msg } => Err(format!("{}: {}", key, msg)),
+        _ => Ok(()),
+    }
+}
+
+//------------ strategies ------------------------------------------------------------------------
+
+fn name_strategy() -> impl Strategy<Value = NameSpec> {
+    prop_oneof![
+        8 => (0u8..8).prop_map(NameSpec::Pool),
+        1 => prop::collection::vec(any::<u8>(), 0..24).prop_map(|v| NameSpec::Raw(Hex(v))),
+    ]
+}
+
+fn data_strategy() -> impl Strategy<Value = DataSpec> {
+    let size = prop_oneof![
+        6 => (1u8..=5, prop_oneof![Just(-1i8), Just(0), Just(1)]).prop_map(|(k, d)| SizeSpec::Page(k, d)),
+        3 => prop_oneof![Just(0u32), Just(1), Just(255), Just(256), Just(1023), Just(1024), Just(1025)].prop_map(SizeSpec::Abs),
+        2 => (0u32..3000).prop_map(SizeSpec::Abs),
+        1 => prop_oneof![Just(65535u32), Just(65536), Just(65537)].prop_map(SizeSpec::Abs),
+    ];
+    (size, any::<u8>()).prop_map(|(size, seed)| DataSpec { size, seed })
+}
+
+fn check_strategy() -> impl Strategy<Value = Check> {
+    prop_oneof![3 => Just(Check::Accept), 1 => Just(Check::Refuse), 2 => (0u32..4).prop_map(Check::Match)]
+}
+
+fn op_strategy() -> impl Strategy<Value = Op> {
+    prop_oneof![
+        6 => (name_strategy(), data_strategy(), 0u32..4).prop_map(|(name, data, meta)| Op::Publish { name, data, meta }),
+        5 => (name_strategy(), data_strategy(), 0u32..4, check_strategy()).prop_map(|(name, data, meta, check)| Op::Update { name, data, meta, check }),
+        5 => (name_strategy(), check_strategy()).prop_map(|(name, check)| Op::Delete { name, check }),
+        1 => name_strategy().prop_map(|name| Op::Fetch { name }),
+        2 => (name_strategy(), check_strategy()).prop_map(|(name, check)| Op::FetchIf { name, check }),
+        1 => Just(Op::Reopen),
+        1 => Just(Op::Probe),
+    ]
+}
+
+pub fn case_strategy(max_ops: usize) -> impl Strategy<Value = ArchCase> {
+    (prop_oneof![3 => Just(1u16), 2 => Just(2), 2 => Just(3), 1 => Just(7), 2 => Just(0), 1 => Just(1024)], 1u64..1000, any::<bool>(), prop::collection::vec(op_strategy(), 1..=max_ops))
+        .prop_map(|(buckets, key, meta32, ops)| ArchCase { buckets, key, meta32, ops })
+}
+
+pub fn run(ctx: &Ctx, rep: &mut Report, replay: Option<&serde_json::Value>) {
+    rep.rule("operation sequences (publish / update / delete / fetch / fetch_if with accepting, refusing and metadata-matching checks / reopen / read-only second handle) of 1..=40 operations over 8 pooled names (empty, short, 190 and 300 bytes) plus random names, in archives with 1, 2, 3, 7 or 1024 hash buckets (so names collide) and a fixed hash key, data sizes placed at page boundaries (k*256 total -1/0/+1), 0, 1, 255..1025, up to 3000 and 64 KiB +-1, metadata of 5 or 32 bytes; also byte-driven sequences (the libFuzzer body); non-trivial = a publish/update lands in space freed earlier in the same sequence (exact fit or split), or a reopen of a non-empty archive; distinct by serialised case");
+    rep.assume("the archive is used by one writer at a time and opened writable for writing (as the RRDP collector does); the hash key of a fresh archive is replaced by a fixed one before the first object is added so chain order is reproducible");
+    let scratch = ctx.scratch();
+    let dir = scratch.path().to_path_buf();
+    let d2 = dir.clone();
+    let seq = move |c: &ArchCase, i: &mut CaseInfo| judge(&dir, c, i);
+    let bytes = move |d: &Hex, i: &mut CaseInfo| judge_bytes(&d2, &d.0, i);
+    if let Some(v) = replay {
+        let t: Tagged<serde_json::Value> = serde_json::from_value(v.clone()).expect("replay");
+        match t.sub.as_str() {
+            "ops" | "long" => run_case(ctx, rep, &t.sub, &serde_json::from_value::<ArchCase>(t.case).expect("case"), seq),
+            other if other == "bytes" || other.starts_with("corpus:") || other.starts_with("fuzz:") => run_case(ctx, rep, other, &serde_json::from_value::<Hex>(t.case).expect("case"), bytes),
+            other => panic!("unknown sub {}", other),
+        }
+        return;
+    }
+    let _ = Cell::new(0);
+    run_prop(ctx, rep, "ops", ctx.tier.pick(2_000, 40_000), case_strategy(40), &seq);
+    run_prop(ctx, rep, "long", ctx.tier.pick(60, 1_000), case_strategy(300), &seq);
+    run_prop(ctx, rep, "bytes", ctx.tier.pick(800, 10_000), prop::collection::vec(any::<u8>(), 0..300).prop_map(Hex), &bytes);
+    let d3 = scratch.path().to_path_buf();
+    crate::fz::replay_corpus(ctx, rep, "archive_ops", |d, i| judge_bytes(&d3, d, i));
+    if ctx.tier == Tier::Thorough {
+        crate::fz::campaign(ctx, rep, "archive_ops", 30_000, 512, |d, i| judge_bytes(&d3, d, i));
+    }
 }
